@@ -13,7 +13,7 @@ RULE = ('seeded scenarios with <<EOF>> rules assigned to arbitrary subsets of co
         'yywrap consultations or an EOF action')
 TIERS = {
     'quick': {'scenarios': 48, 'plans': 120, 'wall_cap': 600},
-    'thorough': {'scenarios': 1200, 'plans': 300, 'wall_cap': 3300},
+    'thorough': {'scenarios': 5000, 'plans': 300, 'wall_cap': 3300},
 }
 COMPONENTS = sb.COMPONENTS
 ASSUMPTIONS = ['a yymore prefix pending when yywrap supplies a new source may be kept or dropped (manual is silent)',
